@@ -222,6 +222,51 @@ FoldIdx == [f : {"fold"}, op : 1..Len(FoldOps), a : 1..Len(FoldVals), b : 1..Len
 \* does the constant expression itself raise an error when evaluated (the optimizer may then refuse the script)
 FoldRaises(c) == LET r == RunP(P0(<<Ret(Bin(FoldOps[c.op], FoldVals[c.a], FoldVals[c.b]))>>)) IN r.o[1] = "thr"
 
+(* ------------------------------- C01: constant expressions beyond the reference *)
+\* Expressions the optimizer may evaluate at compile time but the reference fragment does not model:
+\* unary operators, builtin calls with constant arguments (incl. the printing ones), indexing /
+\* slicing / selecting from literal containers, nested constant expressions.  They are rendered from
+\* source text (a "raw" literal); the meaning of a script is its optimizer-off run.
+XLits == <<"0", "1", "-1", "7", "0u", "3u", "0.0", "1.5", "'a'", "'\\x00'", "\"\"", "\"a\"", "\"12\"", "true", "false", "undefined",
+           "[]", "[1, 2]", "{}", "{a: 1}", "bytes(\"ab\")", "error(\"e\")">>
+XUnOps == <<"-", "+", "!", "^">>
+XCalls1 == <<"len", "int", "uint", "float", "char", "string", "bool", "typeName", "bytes", "error", "chars", "copy", "sprintf", "println", "printf",
+             "isInt", "isUint", "isFloat", "isChar", "isBool", "isString", "isBytes", "isMap", "isArray", "isUndefined", "isFunction", "isCallable",
+             "isIterable", "isError", "isSyncMap">>
+XCalls2 == <<"contains", "append", "repeat", "sprintf">>
+XIdx == <<"[1, 2]", "\"abc\"", "bytes(\"abc\")", "{a: 1}", "[[1], [2]]", "undefined", "7">>
+XKeys == <<"0", "1", "5", "-1", "\"a\"", "1.5", "undefined", "0u">>
+XFixed == <<"(1 + 2) * 3 - len(\"ab\")", "1 + 2 == 3 && \"a\" < \"b\" ? 10 : 20", "[1, 2, 3][1:]", "\"abc\"[:2]", "\"abc\"[1:5]", "[1, 2][2:1]", "{a: {b: 2}}.a.b", "{a: 1}.b.c",
+            "undefined.x", "[1][0][0]", "len([1, 2]) + len(\"ab\")", "int(\"12\") + 1", "string(1) + string('a')", "-(-(1))", "!!1", "!(1 > 2)", "1 << 2 >> 1",
+            "7 % 0", "7u % 0u", "1 << -1", "\"a\" * 2", "'a' + 1", "'a' - 'b'", "1 / 2.0", "5 / 2", "-7 / 2", "-7 % 3", "1 - 2u", "3u - 5", "0.1 + 0.2", "1e308 * 10.0",
+            "9223372036854775807 + 1", "-9223372036854775807 - 2", "1 << 63", "1 << 64", "255u << 60", "'a' < 98", "\"a\" + 1", "\"a\" + 1.5", "\"a\" + 'b'", "[1] + [2]", "[1] + 2",
+            "{a: 1} == {a: 1}", "[1, 2] == [1, 2]", "[1] == [1.0]", "undefined == false", "1 == 1.0", "1 == 1u", "'a' == 97", "\"1\" == 1", "true == 1", "true + true", "true && \"x\"", "0 || \"\" || 'a'">>
+XExpr(c) == CASE c.k = "un"    -> XUnOps[c.a] \o " " \o XLits[c.b]
+              [] c.k = "call1" -> XCalls1[c.a] \o "(" \o XLits[c.b] \o ")"
+              [] c.k = "call2" -> XCalls2[c.a] \o "(" \o XLits[c.b] \o ", " \o XLits[c.d] \o ")"
+              [] c.k = "idx"   -> XIdx[c.a] \o "[" \o XKeys[c.b] \o "]"
+              [] c.k = "fixed" -> XFixed[c.a]
+\* the same with the (first) operand held in a variable: nothing to fold, the VM evaluates
+XExprVar(c) == CASE c.k = "un"    -> XUnOps[c.a] \o "xv"
+                 [] c.k = "call1" -> XCalls1[c.a] \o "(xv)"
+                 [] c.k = "call2" -> XCalls2[c.a] \o "(xv, " \o XLits[c.d] \o ")"
+                 [] c.k = "idx"   -> XIdx[c.a] \o "[xv]"
+                 [] c.k = "fixed" -> XFixed[c.a]
+XVarInit(c) == IF c.k = "idx" THEN XKeys[c.b] ELSE IF c.k = "fixed" THEN "0" ELSE XLits[c.b]
+XProg(c) ==
+  LET e == RawL(XExpr(c), FALSE) IN
+  CASE c.pos = "ret"  -> <<Ret(e)>>
+    [] c.pos = "fn"   -> <<Def("f", Fn0(<<Ret(e)>>)), Ret(C0(Id("f")))>>
+    [] c.pos = "dead" -> <<Def("f", Fn0(<<Ret(e)>>)), Ret(I(3))>>
+    [] c.pos = "iff"  -> <<If(F, <<Ret(e)>>, <<>>), Ret(I(4))>>
+    [] c.pos = "var"  -> <<Def("xv", RawL(XVarInit(c), FALSE)), Ret(RawL(XExprVar(c), FALSE))>>
+XPos == {"ret", "fn", "dead", "iff", "var"}
+XIdxSet == [f : {"xfold"}, k : {"un"}, a : 1..Len(XUnOps), b : 1..Len(XLits), d : {1}, pos : XPos]
+      \cup [f : {"xfold"}, k : {"call1"}, a : 1..Len(XCalls1), b : 1..Len(XLits), d : {1}, pos : XPos]
+      \cup [f : {"xfold"}, k : {"call2"}, a : 1..Len(XCalls2), b : 1..Len(XLits), d : 1..Len(XLits), pos : {"ret", "iff", "var"}]
+      \cup [f : {"xfold"}, k : {"idx"}, a : 1..Len(XIdx), b : 1..Len(XKeys), d : {1}, pos : XPos]
+      \cup [f : {"xfold"}, k : {"fixed"}, a : 1..Len(XFixed), b : {1}, d : {1}, pos : {"ret", "fn", "dead", "iff"}]
+
 (* ----------------------------------------------- C01: literal conditions *)
 Raw(src, falsy) == Lit([t |-> "raw", src |-> src, falsy |-> falsy])
 CondLits == <<I(0), I(1), S(""), S("a"), T, F, U, Raw("0u", TRUE), Raw("1u", FALSE), Raw("0.0", FALSE), Raw("1.5", FALSE),
@@ -486,6 +531,7 @@ AllIdx == ListIdx
           \cup (IF "shadow" \in Fams THEN ShadowIdx ELSE {})
           \cup (IF "fold" \in Fams THEN FoldIdx ELSE {})
           \cup (IF "cond" \in Fams THEN CondIdx ELSE {})
+          \cup (IF "xfold" \in Fams THEN XIdxSet ELSE {})
           \cup (IF "dis" \in Fams THEN DisIdx \cup DisModIdx ELSE {})
           \cup (IF "mod" \in Fams THEN ModIdx ELSE {})
           \cup (IF "frag" \in Fams THEN FragIdx ELSE {})
@@ -499,6 +545,7 @@ ProgOf(c) == CASE c.f \in {"closure", "assign", "const"} -> P0(FamSeq(c.f)[c.i])
                [] c.f = "shadow" -> P0(ShadowProg(c.nm, c.i))
                [] c.f = "fold" -> P0(FoldProg(c))
                [] c.f = "cond" -> P0(CondProg(c))
+               [] c.f = "xfold" -> P0(XProg(c))
                [] c.f = "dis" -> [P0(ShadowProg(c.nm, c.i)) EXCEPT !.disabled = c.d]
                [] c.f = "dismod" -> [DisModProg(c) EXCEPT !.disabled = c.d]
                [] c.f = "mod" -> ModProg(c)
@@ -536,8 +583,8 @@ ExportFrag == (ph = 1 /\ c.f = "frag") =>
    CSVWrite("%1$s", <<ToJson([fam |-> c.f, id |-> [f |-> c.f, s |-> c.s, cut |-> c.cut], prog |-> ProgOf(c), frag |-> FragExp(c)])>>, IOEnv.OUT)
 Export == (ph = 1 /\ c.f # "frag") => LET p == ProgOf(c)  mref == (c.f = "mod" /\ ModRefused(c)) IN
    CSVWrite("%1$s", <<ToJson([fam |-> c.f, id |-> c, prog |-> p, exp |-> (IF mref THEN NoExp ELSE RunP(p)), modrefused |-> mref,
-                              mayrefuse |-> (c.f = "fold" /\ FoldRaises(c)),
-                              refknown |-> (IF c.f = "fold" THEN FoldExprKnown(c) ELSE IF mref THEN TRUE ELSE RefKnown(p)),
+                              mayrefuse |-> (c.f = "xfold" \/ (c.f = "fold" /\ FoldRaises(c))),
+                              refknown |-> (IF c.f = "xfold" THEN FALSE ELSE IF c.f = "fold" THEN FoldExprKnown(c) ELSE IF mref THEN TRUE ELSE RefKnown(p)),
                               refused |-> (ProgRefs(p) \cap p.disabled # {}),
                               \* a reference inside a branch the compiler removes (literal false condition) need not be reported
                               refopt |-> (c.f = "dismod" /\ c.v = 7)])>>, IOEnv.OUT)
